@@ -157,6 +157,48 @@ def check(prog, run):
                                "%s raised by %s is not handled by process_graphql_query (%s): the request raises instead of "
                                "returning an error response" % (name, f.qualname, sorted(handlers)))
 
+    # ---- K6 one error object per failure
+    r = run.rule("K6", "every `raise <name>` in execution/** and the coercion utilities raises an object created for this failure "
+                       "(handler-bound, or built in the same call): add_error stores the raised object and rewrites its path, so "
+                       "re-raising an object kept in instance/module state makes several response errors share one path", 5)
+    for mname, mod in prog.modules.items():
+        if not (mname.startswith("py_gql.execution") or mname in ("py_gql.utilities.coerce_value", "py_gql.utilities.value_from_ast")):
+            continue
+        for f in [x for x in prog.all_funcs() if x.module is mod]:
+            for n in own_nodes(f.node):
+                if isinstance(n, ast.Raise) and not isinstance(n.exc, ast.Name):
+                    r.instance("%s: `%s` (%s)" % (f.qualname, norm_stmt(n, 50), "fresh object" if isinstance(n.exc, ast.Call) else "re-raise" if n.exc is None else "expression"))
+                if not (isinstance(n, ast.Raise) and isinstance(n.exc, ast.Name)):
+                    continue
+                name = n.exc.id
+                # handler-bound?
+                cur, bound = n, False
+                while getattr(cur, "_parent", None) is not None:
+                    cur = cur._parent
+                    if isinstance(cur, ast.ExceptHandler) and cur.name == name:
+                        bound = True
+                r.instance("%s: `raise %s` handler-bound=%s" % (f.qualname, name, bound))
+                if bound:
+                    continue
+                defs = [x.value for x in own_nodes(f.node) if isinstance(x, ast.Assign) and any(isinstance(t, ast.Name) and t.id == name for t in x.targets)]
+                defs += [x.value for x in own_nodes(f.node) if isinstance(x, ast.Assign) and isinstance(x.value, ast.Assign)]
+                # chained assignment `av = self.cache[k] = expr` binds name too
+                for x in own_nodes(f.node):
+                    if isinstance(x, ast.Assign) and len(x.targets) > 1 and any(isinstance(t, ast.Name) and t.id == name for t in x.targets):
+                        defs.append(x.value)
+                stored = [d for d in defs if isinstance(d, (ast.Subscript, ast.Attribute)) and ast.unparse(d).startswith("self.")]
+                handler_copies = []
+                for x in own_nodes(f.node):
+                    if isinstance(x, ast.Assign) and any(isinstance(t, ast.Name) and t.id == name for t in x.targets) and isinstance(x.value, ast.Name):
+                        handler_copies.append(x)
+                kept = any(isinstance(x, ast.Assign) and any(isinstance(t, ast.Subscript) and ast.unparse(t.value).startswith("self.") for t in x.targets)
+                           and isinstance(x.value, ast.Name) and x.value.id == name for x in own_nodes(f.node))
+                if stored or kept:
+                    run.report(r, "%s:%s:raises-stored-error(%s)" % (mname, f.qualname, name), f.where(n),
+                               "`raise %s` re-raises an exception object that is kept in instance state (%s): each time it is recorded "
+                               "add_error overwrites its path, so N failures of the same field node yield N errors that all carry the "
+                               "last path" % (name, ast.unparse(stored[0]) if stored else "stored in a cache"))
+
     # ---- K4 strict JSON for the library's own scalars
     r = run.rule("K4", "the Float serialiser rejects non-finite values, or GraphQLResult.json passes allow_nan=False", 1)
     cf = prog.get_func(SCALARS, "coerce_float")
